@@ -98,10 +98,25 @@ def record(family, out, profile="release", timeout=1200, **kw):
     return out
 
 
+def hang_violation(chk, trace_path, what):
+    """The harness watchdog saw a library call that did not return: report it as a violation."""
+    hang = trace_path + ".hang.json"
+    if os.path.exists(hang):
+        h = json.load(open(hang))
+        chk.violation("hang: " + what, "a library call did not return within the watchdog limit (%s); input of %d bytes" % (what, len(h.get("input", []))),
+                      {"input": h.get("input"), "what": what})
+        return True
+    return False
+
+
 def replay_vectors(family, inp, out, profile="release", timeout=1200, **kw):
     b = harness_bin(profile)
     args = [b, "replay", family, "in=" + inp, "out=" + out] + ["%s=%s" % (k, v) for k, v in kw.items()]
+    if os.path.exists(out + ".hang.json"):
+        os.remove(out + ".hang.json")
     p = sh(args, timeout=timeout, check=False)
+    if p.returncode == 7 and os.path.exists(out + ".hang.json"):
+        return out
     if p.returncode != 0:
         raise ToolError("harness replay %s failed (%d): %s" % (family, p.returncode, p.stdout[-3000:]))
     return out
